@@ -270,6 +270,14 @@ def run_shard(shard, tier, seed):
 
 # ---------------------------------------------------------------- hash-seed part (child process)
 
+SYMBOLIC = [('b800000000', 1, 'mov eax, foo'), ('b800000000', 1, 'mov eax, foo-bar'), ('b800000000', 1, 'mov eax, foo+bar'), ('b900000000', 1, 'mov ecx, table+offset_0'),
+            ('0500000000', 1, 'add eax, sym_a+sym_b'), ('6800000000', 0, 'push L1+L2'), ('8b8300000000', 1, 'mov eax, [ebx+foo+bar]'), ('8b8300000000', 1, 'mov eax, [ebx+foo-bar]'),
+            ('81830000000078563412', 0, 'add dword ptr [ebx+x+y], 0x12345678'), ('8d8600000000', 1, 'lea eax, [esi+base+index]'), ('b800000000', 1, 'mov eax, zeta+alpha'),
+            ('b800000000', 1, 'mov eax, a+b'), ('b800000000', 1, 'mov eax, k1+k2'), ('a100000000', 1, 'mov eax, [first+second]'), ('3d00000000', 1, 'cmp eax, lo+hi'),
+            ('c7050000000001000000', 0, 'mov dword ptr [var_x+var_y], 1'), ('e800000000', 0, 'call func+delta'), ('b800000000', 1, 'mov eax, foo+bar+4'),
+            ('b800000000', 1, 'mov eax, foo-foo+bar')]
+
+
 def corpus_items(seed, tier):
     """Deterministic list of (item id, producer) evaluated identically in every child."""
     from miasmx.arch.ia32_arch import x86mnemo
@@ -300,6 +308,9 @@ def corpus_items(seed, tier):
             bs.append(bytes([0x66, op, modrm, 0x24, 0x10, 0x20, 0x30, 0x40, 0x50]))
     for k, b in enumerate(bs):
         items.append(('render', k, b))
+    # operands that carry symbols (what a relocation-aware client lifts): one, two and three symbols, sums and differences
+    for k, (hx, idx, txt) in enumerate(SYMBOLIC):
+        items.append(('symbolic', k, (hx, idx, txt)))
     # blocks for dump_id / dump_mem
     nb = 40 if tier == 'quick' else 300
     for i in range(nb):
@@ -343,6 +354,27 @@ def child_main(seed, tier, out_path):
                     out += ['get_r-str', ','.join(sorted(str(x) for x in rs))]
                 except Exception as ex:
                     out += ['lift-str', 'raises %s' % type(ex).__name__]
+                res[key] = out
+            elif kind == 'symbolic':
+                import binascii
+                from miasmx.arch.ia32_reg import x86_afs
+                hx, idx, txt = payload
+                op = x86mnemo.dis(binascii.unhexlify(hx))
+                prefix, name, args = x86mnemo.parse_mnemo(txt)
+                out = ['parse-str', repr(sorted((str(k_), str(v_)) for a_ in args for k_, v_ in a_.items()))]
+                a = dict(op.arg[idx])
+                a.pop(x86_afs.imm, None)
+                a[x86_afs.symb] = dict(args[idx][x86_afs.symb])
+                op.arg[idx] = a
+                affs = emul_helper.get_instr_expr(op, exprgen.Int(0x1000 + op.l, 32), [])
+                out += ['lift-str', ' ; '.join(str(x) for x in affs), 'lift-simp-str', ' ; '.join(str(eh.expr_simp(x)) for x in affs)]
+                try:
+                    out += ['render-intel', str(op)]
+                except Exception as ex:
+                    out += ['render-intel', 'raises %s' % type(ex).__name__]
+                m = emul_helper.x86_machine()
+                emul_helper.emul_lines(m, [op])
+                out += ['dump_id', '\n'.join(m.dump_id()), 'dump_mem', '\n'.join(m.dump_mem())]
                 res[key] = out
             elif kind == 'dump':
                 lines = []
